@@ -74,7 +74,8 @@ WrapFaulty(n) ==
   /\ "custom" \in Kinds
   /\ \A i \in DOMAIN stack : ~HasFault(stack[i])
   /\ \E f \in Faults :
-       WrapWith(n, [Mk("custom", used + 1, Kids(n), <<>>, 1, 1, <<>>, FALSE) EXCEPT !.fault = f])
+       /\ (f = "entshort" => n >= 1)          \* "fewer entries than children" needs a child
+       /\ WrapWith(n, [Mk("custom", used + 1, Kids(n), <<>>, 1, 1, <<>>, FALSE) EXCEPT !.fault = f])
 
 Wrap == /\ used < MaxNodes
         /\ \E n \in 0..MaxArity :
